@@ -20,7 +20,7 @@ import (
 // and the client protocol can carry one. Written from the protocol specifications, not from the code's tables:
 // SS2022 requests carry payload; SS2022 / SS-none clients send it with the header; a plain TCP client only with TFO.
 func mayWaitFirst(sc *Scenario) bool {
-	if sc.DisableWait || sc.Server == "ss2022" || sc.ReqLen > 0 {
+	if sc.DisableWait || isSS(sc.Server) || sc.ReqLen > 0 {
 		return false
 	}
 	switch sc.Client {
